@@ -10,12 +10,14 @@ import (
 	"context"
 	"fmt"
 	"os"
+	"path"
 	"strings"
 	"sync"
 	"time"
 
 	"github.com/tikv/pd/server"
 	"github.com/tikv/pd/server/config"
+	"github.com/tikv/pd/server/kv"
 
 	"pdverif/internal/kvx15"
 	"pdverif/internal/srv15"
@@ -156,7 +158,7 @@ func leadershipRoundTrip(main *world) (*caseRec, func()) {
 		st := x.s.GetStorage()
 		kb := kvx15.New(st.Base)
 		st.Base = kb
-		w := &world{x: &srv15.Srv{S: x.s}, st: st, b: kb, ctx: context.Background(), R: main.R}
+		w := &world{x: &srv15.Srv{S: x.s}, st: st, b: kb, raw: kv.NewEtcdKVBase(x.s.GetClient(), path.Dir(x.s.GetClusterRootPath())), ctx: context.Background(), R: main.R}
 		for t := 0; t < 3; t++ {
 			w.thr = append(w.thr, &thread{who: fmt.Sprintf("t%d", t)})
 		}
